@@ -1004,8 +1004,13 @@ int __wrap_select(int nfds, fd_set *r, fd_set *w, fd_set *e, struct timeval *tv)
         t->io_has_r = r != nullptr; t->io_has_w = w != nullptr; t->io_has_e = e != nullptr;
         if (r) t->io_r = r0; if (w) t->io_w = w0; if (e) t->io_e = e0;
       });
-  if (res <= 0) {
+  if (res == 0) {
     if (r) FD_ZERO(r); if (w) FD_ZERO(w); if (e) FD_ZERO(e);
+  } else if (res < 0) {
+    // as the kernel does: a failed select() (EINTR, EBADF) leaves the three sets as the caller passed them
+    int en = errno;
+    if (r) *r = r0; if (w) *w = w0; if (e) *e = e0;
+    errno = en;
   }
   return res;
 }
